@@ -43,6 +43,8 @@ func pgpCryptoHash() crypto.Hash {
 		return crypto.MD5
 	case 2:
 		return crypto.SHA1
+	case 3:
+		return crypto.RIPEMD160
 	case 9:
 		return crypto.SHA384
 	case 10:
@@ -279,7 +281,10 @@ func makeSig(signer *pgpKeyMat, spec pgpSigSpec, signedData []byte) pgpSig {
 	head = append(head, hashed...)
 	trailer := []byte{4, 0xFF, 0, 0, 0, 0}
 	binary.BigEndian.PutUint32(trailer[2:], uint32(len(head)))
-	h := pgpCryptoHash().New()
+	h := rmdNew() // RIPEMD-160 from the harness's own copy: never registered with package crypto
+	if pgpSigHash != 3 {
+		h = pgpCryptoHash().New()
+	}
 	h.Write(signedData)
 	h.Write(head)
 	h.Write(trailer)
